@@ -2,12 +2,12 @@
    Only statements, [exact], and Print Assumptions live here. *)
 From PG Require Import Lib.Strs Model.Registry Proofs.Registry.
 
-(* Full statement (FALSE on the unchanged tree, see the three refutations):
+(* Full statement (FALSE on the current tree, see the two refutations F11b, F11c; F11a is fixed):
      forall l h, Works (fold_left (step l) h init).
 
    For every core layout and every history of generate calls (any length, repetition, force on/off,
-   changing code sets) that meets the executable guard — the core is recognised as shared [F11a],
-   the client whose directory contains the core is never regenerated through the direct path
+   changing code sets) that meets the executable guard — the core package has at least one
+   component (well-formedness; F11a is fixed: a core is shared at any depth), the client whose directory contains the core is never regenerated through the direct path
    while that directory exists [F11b], and no non-force call hits a directory holding only the
    core with coinciding aliases [F11c] — every generated client finds each class it imports from
    the core among the emitted aliases, and every client reported as generated is present. *)
@@ -15,27 +15,28 @@ Theorem C11_partial : forall l h, guard l h = true -> Works (run l h).
 Proof. exact works_under_guard. Qed.
 Print Assumptions C11_partial.
 
-(* The static form of the design: shared core (one or two packages deep) outside every client:
+(* The static form of the design: a core (at any depth) outside every client's directory:
    all histories, no condition on the calls. *)
 Theorem C11_partial_static : forall l h,
   is_shared l = true -> core_inside_client l = None -> Works (fold_left (step l) h init).
 Proof. exact works_shared_outside. Qed.
 Print Assumptions C11_partial_static.
 
-Theorem C11_refuted_F11a :
-  guard_F11a l_F11a = false /\ guard_F11b l_F11a h_F11a = true /\ guard_F11c l_F11a h_F11a = true
-  /\ ~ Inv (run l_F11a h_F11a).
-Proof. exact refuted_F11a. Qed.
-Print Assumptions C11_refuted_F11a.
+(* regression: F11a is fixed — a core three packages deep keeps the union of both clients' classes *)
+Theorem C11_fixed_F11a :
+  guard l_F11a h_F11a = true /\ Works (run l_F11a h_F11a)
+  /\ aliases (run l_F11a h_F11a) = Some [404; 409].
+Proof. exact fixed_F11a. Qed.
+Print Assumptions C11_fixed_F11a.
 
 Theorem C11_refuted_F11b :
-  guard_F11a l_in = true /\ guard_F11b l_in h_F11b = false /\ guard_F11c l_in h_F11b = true
+  wf_layout l_in = true /\ guard_F11b l_in h_F11b = false /\ guard_F11c l_in h_F11b = true
   /\ ~ Inv (run l_in h_F11b).
 Proof. exact refuted_F11b. Qed.
 Print Assumptions C11_refuted_F11b.
 
 Theorem C11_refuted_F11c :
-  guard_F11a l_in = true /\ guard_F11b l_in h_F11c = true /\ guard_F11c l_in h_F11c = false
+  wf_layout l_in = true /\ guard_F11b l_in h_F11c = true /\ guard_F11c l_in h_F11c = false
   /\ Inv (run l_in h_F11c) /\ ~ Claimed_present (run l_in h_F11c).
 Proof. exact refuted_F11c. Qed.
 Print Assumptions C11_refuted_F11c.
